@@ -65,3 +65,4 @@ CFG['rule'] = CFG['rule'] + ' ' + "The node's shard-manager root differs from th
 
 CFG['rule'] = CFG['rule'] + ' ' + 'One create request in three carries a different plan (MaxCollections 0, 1, or the current number of collections -2 .. +1).'
 CFG['rule'] = CFG['rule'] + ' ' + 'CLive: after every accepted live insert without failed ranges (batches in random, i.e. unsorted, id order) every shard of the collection is asked directly which points of the batch it holds; their positions in the id-sorted batch are judged by live_ranges_b (proved sound: c15_live_checker_sound) and compared with the ranges of the model run on the fill levels read before the request.'
+CFG['rule'] = CFG['rule'] + ' ' + 'End-to-end sequences with two points per shard and a quota of six or more first send six points with every id named three times into the empty collection: two of the three ranges are refused by their shard and must both be reported failed.'
